@@ -231,6 +231,17 @@ func (c *Ctx) callWrites(call *ssa.CallCommon, visiting map[*ssa.Function]bool) 
 
 func (c *Ctx) declaredWrites(fc *FuncContract) *writeSet {
 	w := newWriteSet()
+	for _, tn := range strings.Split(fc.Opts["havoc"], ",") {
+		if tn = strings.TrimSpace(tn); tn != "" {
+			if te, err := parseTypeExpr(tn); err == nil {
+				if t := c.resolveType(te, c.prog.TypesPkgs[fc.Pkg]); t != nil {
+					w.keys[c.sortOf(t)] = true
+					w.allocKeys[c.sortOf(t)] = true
+					w.allocs = true
+				}
+			}
+		}
+	}
 	if s := fc.Opts["writes"]; s != "" && s != "none" {
 		for _, part := range strings.Split(s, ",") {
 			part = strings.TrimSpace(part)
@@ -349,6 +360,7 @@ func resultTypes(sig *types.Signature) []types.Type {
 
 func (fr *frame) doCall(call *ssa.CallCommon, st *State, pos token.Pos, site ssa.Value) []Val {
 	c := fr.c
+	fr.curCall = call
 	if call.IsInvoke() {
 		return fr.invoke(call, st, pos)
 	}
@@ -527,6 +539,9 @@ func (fr *frame) applyContract(fc *FuncContract, display string, names []string,
 	for k, v := range extra {
 		env.vars[k] = v
 	}
+	for _, tr := range fc.TypeReqs {
+		fr.typeReqObligation(fc, display, names, tr, pos)
+	}
 	for _, r := range fc.Requires {
 		v := env.trBool(r.Expr)
 		label := display + ":" + r.Label
@@ -560,9 +575,29 @@ func (fr *frame) applyContract(fc *FuncContract, display string, names []string,
 		fr.assumeR(fmt.Sprintf("(>= %s %s)", na, preAlloc))
 		st.alloc = na
 	}
+	// opt havoc=T1,T2: the callee may change any object of these sorts (no frame is assumed)
+	havocKeys := map[string]bool{}
+	for _, tn := range strings.Split(fc.Opts["havoc"], ",") {
+		if tn = strings.TrimSpace(tn); tn != "" {
+			if te, err := parseTypeExpr(tn); err == nil {
+				if t := c.resolveType(te, c.prog.TypesPkgs[fc.Pkg]); t != nil {
+					havocKeys[c.sortOf(t)] = true
+					w.keys[c.sortOf(t)] = true
+					w.allocKeys[c.sortOf(t)] = true
+				}
+			}
+		}
+	}
+	if len(havocKeys) > 0 {
+		keys = nil
+		for k := range w.keys {
+			keys = append(keys, k)
+		}
+		sort.Strings(keys)
+	}
 	// a callee that modifies nothing and returns no reference cannot make its
 	// fresh objects visible to the caller: the caller's heaps stay as they are
-	invisible := len(mods) == 0 && !w.all
+	invisible := len(mods) == 0 && !w.all && len(havocKeys) == 0
 	for _, t := range rts {
 		if isRefType(t) {
 			invisible = false
@@ -591,6 +626,10 @@ func (fr *frame) applyContract(fc *FuncContract, display string, names []string,
 		}
 		nh := c.newHeapConst(k, "_call", st.alloc)
 		st.heaps[k] = nh
+		if havocKeys[k] {
+			c.assumed["call to "+display+" may change any object of sort "+k+" (opt havoc)"] = true
+			continue
+		}
 		if !hasMod(mods, k) && !strings.HasPrefix(k, "map!") {
 			c.heapPrev[nh] = heapPrevInfo{prev: old, preAlloc: preAlloc, reach: fr.curReach}
 		}
@@ -1069,3 +1108,45 @@ func (c *Ctx) fisInf(a, sign string) string {
 }
 
 var _ = constant.MakeBool
+
+// typeReqObligation: a fact about static types at a call site, decided by
+// go/types (not by SMT): the value passed for a parameter must implement an
+// interface (e.g. gonum's path.Weighted, which path.AStar tests dynamically).
+func (fr *frame) typeReqObligation(fc *FuncContract, display string, names []string, tr TypeReq, pos token.Pos) {
+	c := fr.c
+	call := fr.curCall
+	idx := -1
+	for i, n := range names {
+		if n == tr.Param {
+			idx = i
+		}
+	}
+	te, err := parseTypeExpr(tr.Iface)
+	var it *types.Interface
+	if err == nil {
+		if t := c.resolveType(te, c.prog.TypesPkgs[fc.Pkg]); t != nil {
+			it, _ = t.Underlying().(*types.Interface)
+		}
+	}
+	claim, text := "false", ""
+	if call == nil || idx < 0 || idx >= len(call.Args) || it == nil {
+		text = "cannot resolve type requirement " + tr.Param + " implements " + tr.Iface
+	} else {
+		arg := call.Args[idx]
+		var st types.Type = arg.Type()
+		if mi, ok := arg.(*ssa.MakeInterface); ok {
+			st = mi.X.Type()
+		}
+		ok := types.Implements(st, it)
+		text = fmt.Sprintf("go/types: static type %s of argument %q of %s implements %s: %v", st, tr.Param, display, tr.Iface, ok)
+		if ok {
+			claim = "true"
+		}
+	}
+	o := fr.oblige("typefact", display+":"+tr.Label, propsOr(tr.Props, fr.props), claim, text, pos)
+	o.TypeFact = true
+	if claim == "false" {
+		// keep later reasoning meaningful: do not assume false
+		c.cmds = c.cmds[:len(c.cmds)-1]
+	}
+}
